@@ -354,6 +354,10 @@ class DataClassSerializeMixin(DataClassDictMixin, SerializableType):
         Returns:
             str: The serialized object.
         """
+        # When key sorting is requested the mapping is already sorted (type key first),
+        # and PyYAML's own alphabetical sorting must not reorder it
+        keep_order = bool((serialization_options or {}).get(SerializationOption.SORT_KEYS, False))
+
         return yaml.dump(
             (
                 self.as_dict(
@@ -362,6 +366,7 @@ class DataClassSerializeMixin(DataClassDictMixin, SerializableType):
                 )
             ),
             Dumper=YamlDumper,
+            sort_keys=not keep_order,
         )
 
     @classmethod
